@@ -152,6 +152,11 @@ def breakpoints(case):
         return [float(ps[0])]
     if c == "DistLogNormal":
         return [math.exp(float(ps[0]))]
+    # a narrow peak far from 0: split at the mode so that the nodes gather there
+    if c == "DistErlang" and ps[1] > 1:
+        return [float(ps[0]) * (ps[1] - 1)]
+    if c == "DistGamma" and float(ps[0]) > 1:
+        return [float(ps[1]) * (float(ps[0]) - 1.0)]
     return []
 
 
